@@ -38,6 +38,7 @@ fn cc_build(path: &[(autosar_data::ElementName, autosar_data_specification::Elem
     targets.extend(cur.sub_elements());
     for e in &targets {
         let et = e.element_type();
+        if et.is_ref() { let _ = e.set_character_data(CharacterData::String(format!("/ref/target{}", rng.below(3)))); }
         if e.element_name() != ElementName::ShortName && !et.is_ref() && e.sub_elements().next().is_none() {
             match et.chardata_spec() {
                 Some(CharacterDataSpec::Enum { items }) => { if let Some((it, _)) = items.iter().find(|(_, m)| m & vm != 0) { let _ = e.set_character_data(CharacterData::Enum(*it)); } }
@@ -55,6 +56,25 @@ fn cc_build(path: &[(autosar_data::ElementName, autosar_data_specification::Elem
         }
     }
     Some((model, file, cur))
+}
+
+/// every identifiable element below (and including) `top` is found under its path, every reference is registered as a referrer of its target
+fn cc_registered(model: &autosar_data::AutosarModel, top: &autosar_data::Element, what: &str) -> Result<(), String> {
+    use autosar_data::*;
+    for (_, e) in top.elements_dfs() {
+        if e.is_identifiable() {
+            let Ok(p) = e.path() else { return Err(format!("an identifiable element of {} has no path", what)); };
+            if model.get_element_by_path(&p).as_ref() != Some(&e) { return Err(format!("the identifiable element {} of {} is not found under its path", p, what)); }
+        }
+        if e.is_reference() {
+            if let Some(CharacterData::String(target)) = e.character_data() {
+                if !model.get_references_to(&target).iter().any(|w| w.upgrade().as_ref() == Some(&e)) {
+                    return Err(format!("the reference {} -> {} inside {} is not registered as a referrer of its target (get_references_to misses it)", e.element_name(), target, what));
+                }
+            }
+        }
+    }
+    Ok(())
 }
 
 fn cc_one(path: &[(autosar_data::ElementName, autosar_data_specification::ElementType)], v: autosar_data::AutosarVersion, seed: u64, stats: &mut [u64; 5]) -> Result<(), String> {
@@ -84,12 +104,7 @@ fn cc_one(path: &[(autosar_data::ElementName, autosar_data_specification::Elemen
         }
         let ct = normalise(&copy);
         if ct != src_text { return Err(format!("a copy of {} into its own parent (same version) differs from the source :: source {} :: copy {}", cur.element_name(), hex(src_text.as_bytes()), hex(ct.as_bytes()))); }
-        for (_, e) in copy.elements_dfs() {
-            if e.is_identifiable() {
-                let Ok(p) = e.path() else { return Err(format!("an identifiable element of the copy of {} has no path", cur.element_name())); };
-                if model.get_element_by_path(&p).as_ref() != Some(&e) { return Err(format!("the identifiable element {} of the copy of {} is not found under its path", p, cur.element_name())); }
-            }
-        }
+        cc_registered(&model, &copy, &format!("the copy of {}", cur.element_name()))?;
         // the copy is independent: removing it restores the file text
         let _ = parent.remove_sub_element(copy);
         if file.serialize().map_err(|e| e.to_string())? != file_text { return Err(format!("copying {} and removing the copy again does not restore the file text", cur.element_name())); }
@@ -111,6 +126,7 @@ fn cc_one(path: &[(autosar_data::ElementName, autosar_data_specification::Elemen
                         let ct = copy.serialize();
                         if ct != src_text { return Err(format!("a copy of {} into another model of the same version differs from the source :: source {} :: copy {}", cur.element_name(), hex(src_text.as_bytes()), hex(ct.as_bytes()))); }
                         if file.serialize().map_err(|e| e.to_string())? != file_text { return Err(format!("copying {} into another model changed the source model", cur.element_name())); }
+                        cc_registered(&m2, &copy, &format!("the copy of {} in another model", cur.element_name()))?;
                     }
                     Err(e) => return Err(format!("a copy of {} into an empty parent of the same type and version in another model fails: {}", cur.element_name(), e)),
                 }
@@ -146,6 +162,7 @@ fn cc_one(path: &[(autosar_data::ElementName, autosar_data_specification::Elemen
                         None => return Err(format!("{}the duplicated model has a file {} the original does not have", tag, df.filename().display())),
                     }
                 }
+                if round == 0 { cc_registered(&dup, &dup.root_element(), "the duplicated model")?; }
                 if dup.files().count() != model.files().count() { return Err(format!("{}the duplicated model has a different number of files", tag)); }
                 // independence
                 stats[3] += 1;
